@@ -47,7 +47,23 @@ let srvc inp impl =
     else (m, if m = impl then "1" else "0")
   | _ -> failwith "srvc: bad input"
 
+(* seglate: unit cut stream op... ; wherever the stream was cut, the second call
+   sees the late reply to the first one followed by its own reply *)
+let is_ok r = String.length r >= 3 && String.sub r 0 3 = "ok:"
+
+let seglate inp impl =
+  match inp with
+  | unit :: _cut :: stream :: optoks ->
+    let cfg = { c_unit = n_of_hex unit; c_endian = BigE; c_word = HighFirst } in
+    let o = op_of_tokens optoks in
+    let r1 = client_call FMbap cfg N0 o Stall [] in
+    let r2 = client_call FMbap cfg r1.cr_txn o Stall (bytes_of_hex stream) in
+    let m = Printf.sprintf "%s %s left=%d" (result_str r1.cr_res) (result_str r2.cr_res) (List.length r2.cr_rest) in
+    (m, if m = impl && is_ok (result_str r2.cr_res) then "1" else "0")
+  | _ -> failwith "seglate: bad input"
+
 let () =
+  Registry.register "seglate" seglate;
   Registry.register "segdiff" segdiff;
   Registry.register "ccc" ccc;
   Registry.register "srvc" srvc
